@@ -1,6 +1,6 @@
 """C05 — names resolve to the innermost visible binding; scopes end where they end.
 
-Programs over the identifier pool {a, b, c, d} with every binding kind the statement lists: block
+Programs over the identifier pool {a, b, c, d, u8, f32} (two of them are also built-in type names) with every binding kind the statement lists: block
 locals (`::` / `:=`), switch-arm arguments, lambda parameters, comptime parameters, globals; nested
 blocks, switches, lambdas and comptime blocks; heavy shadowing and re-use right after a scope
 ended. Every binding holds a unique integer tag; every use prints the value it sees.
@@ -13,7 +13,8 @@ from hypothesis import strategies as st
 from . import runner, core
 from .core import Fail, h64
 
-POOL = ["a", "b", "c", "d"]
+POOL = ["a", "b", "c", "d", "u8", "f32"]
+BUILTIN_NAMES = {"u8", "f32"}     # unbound, these denote the built-in types (the last step of the lookup order)
 PRELUDE = 'printf :: (fmt: str, n: i64) -> i32 extern;\n'
 
 
@@ -49,7 +50,8 @@ class Gen:
                     out.append({"k": "use", "name": self.name(), "id": self._uid()})
             elif k == 9 and depth < 3:
                 nm = self.name()
-                out.append({"k": "switch", "arg": nm, "tag": self.newtag(), "some": bool(self.int(0, 3)), "body_some": self.stmts(depth + 1, 3), "body_nil": self.stmts(depth + 1, 2)})
+                out.append({"k": "switch", "arg": nm, "tag": self.newtag(), "some": bool(self.int(0, 3)), "body_some": self.stmts(depth + 1, 3), "body_nil": self.stmts(depth + 1, 2),
+                            "default": bool(self.int(0, 1))})
                 if self.int(0, 2):
                     out.append({"k": "use", "name": nm, "id": self._uid()})
             elif k == 10 and depth < 3:
@@ -62,7 +64,16 @@ class Gen:
             elif k == 12 and depth < 3:
                 self.nfn += 1
                 nm = self.name()
-                out.append({"k": "generic", "fn": f"gen{self.nfn}", "param": nm, "tag": self.newtag(), "body": self.stmts(depth + 1, 2)})
+                g = {"k": "generic", "fn": f"gen{self.nfn}", "param": nm, "tag": self.newtag(), "body": self.stmts(depth + 1, 2)}
+                if self.int(0, 1):
+                    # a run-time parameter before the comptime one
+                    rt = self.name()
+                    if rt != nm:
+                        g["rt_param"], g["rt_tag"] = rt, self.newtag()
+                        g["body"] = [{"k": "use", "name": rt, "id": self._uid()}] + g["body"]
+                # the parameters are used at least once (before anything in the body can shadow them)
+                g["body"] = [{"k": "use", "name": nm, "id": self._uid()}] + g["body"]
+                out.append(g)
             else:
                 out.append({"k": "use", "name": self.name(), "id": self._uid()})
         return out
@@ -104,10 +115,12 @@ def resolve(name, scopes, params, globs):
         return params[name]
     if name in globs:
         return globs[name]
+    if name in BUILTIN_NAMES:
+        return "nil"   # denotes the built-in type: not printable as a number, such uses are dropped from the text
     return None
 
 
-def run_oracle(case):
+def run_oracle(case, skip=frozenset()):
     out = []
     undefined = []
     globs = case["globals"]
@@ -116,16 +129,20 @@ def run_oracle(case):
         scopes = scopes + [{}]
         for s in stmts:
             k = s["k"]
+            if s.get("id") in skip:
+                continue
             if k == "use":
                 v = resolve(s["name"], scopes, params, globs)
                 if v is None:
                     undefined.append(s["id"])
-                elif live:
+                elif live and v != "nil":
                     out.append(v)
             elif k == "ctuse":
                 # inside a comptime block nothing local is visible: only globals
                 v = globs.get(s["name"])
-                if v is None:
+                if v is None and s["name"] in BUILTIN_NAMES:
+                    pass
+                elif v is None:
                     undefined.append(s["id"])
                 elif live:
                     out.append(v)
@@ -141,9 +158,16 @@ def run_oracle(case):
                 # a lambda does not capture: fresh scopes, its own parameters
                 block(s["body"], [], dict(zip(s["params"], s["tags"])), live)
             elif k == "generic":
-                block(s["body"], [], {s["param"]: s["tag"]}, live)
+                block(s["body"], [], gparams(s), live)
     block(case["body"], [], {}, True)
     return out, undefined
+
+
+def gparams(s):
+    ps = {s["param"]: s["tag"]}
+    if "rt_param" in s:
+        ps[s["rt_param"]] = s["rt_tag"]
+    return ps
 
 
 def uses_nil(case):
@@ -157,6 +181,9 @@ def uses_nil(case):
             if k == "use":
                 if resolve(s["name"], scopes, params, case["globals"]) == "nil":
                     bad.append(s["id"])
+            elif k == "ctuse":
+                if s["name"] not in case["globals"] and s["name"] in BUILTIN_NAMES:
+                    bad.append(s["id"])
             elif k == "bind":
                 scopes[-1][s["name"]] = s["tag"]
             elif k == "block":
@@ -167,13 +194,18 @@ def uses_nil(case):
             elif k == "lambda":
                 block(s["body"], [], dict(zip(s["params"], s["tags"])))
             elif k == "generic":
-                block(s["body"], [], {s["param"]: s["tag"]})
+                block(s["body"], [], gparams(s))
     block(case["body"], [], {})
     return bad
 
 
 # ------------------------------------------------------------------------------------------------
 # printer (records the source line of every use)
+
+def gsig(s):
+    rt = f'{s["rt_param"]}: i64, ' if "rt_param" in s else ""
+    return f'{rt}comptime {s["param"]}: i64'
+
 
 def build(case, drop_uses=frozenset()):
     lines = [PRELUDE.rstrip("\n")]
@@ -209,7 +241,7 @@ def build(case, drop_uses=frozenset()):
                 sink.append((f"{pad}    i64 => {{", None))
                 emit(s["body_some"], ind + 2, sink)
                 sink.append((f"{pad}    }},", None))
-                sink.append((f"{pad}    nil => {{", None))
+                sink.append((f"{pad}    {'_' if s.get('default') else 'nil'} => {{", None))
                 emit(s["body_nil"], ind + 2, sink)
                 sink.append((f"{pad}    }},", None))
                 sink.append((pad + "};", None))
@@ -224,15 +256,15 @@ def build(case, drop_uses=frozenset()):
                     # listed open finding: a generic function defined as a *local* crashes the compiler;
                     # the function is emitted as a global instead (same visibility rules: own parameter + globals)
                     g = []
-                    g.append((f'{s["fn"]} :: (comptime {s["param"]}: i64) {{', None))
+                    g.append((f'{s["fn"]} :: ({gsig(s)}) {{', None))
                     emit(s["body"], 1, g)
                     g.append(("};", None))
                     fns.append(g)
                 else:
-                    sink.append((f'{pad}{s["fn"]} :: (comptime {s["param"]}: i64) {{', None))
+                    sink.append((f'{pad}{s["fn"]} :: ({gsig(s)}) {{', None))
                     emit(s["body"], ind + 1, sink)
                     sink.append((pad + "};", None))
-                sink.append((f'{pad}{s["fn"]}({s["tag"]});', None))
+                sink.append((f'{pad}{s["fn"]}({str(s["rt_tag"]) + ", " if "rt_param" in s else ""}{s["tag"]});', None))
     sink = []
     emit(case["body"], 1, sink)
     for g in fns:
@@ -247,6 +279,24 @@ def build(case, drop_uses=frozenset()):
             use_line[uid] = len(lines)
     lines.append("}")
     return "\n".join(lines) + "\n", use_line
+
+
+CT_IN_GENERIC_KEY = "crash:crates/hir/src/body.rs:not yet implemented"
+
+
+def ct_in_generic(case):
+    """ids of comptime-block uses inside the body of a generic function"""
+    ids = []
+
+    def walk(stmts, inside):
+        for s in stmts:
+            if s["k"] == "ctuse" and inside:
+                ids.append(s["id"])
+            for key in ("body", "body_some", "body_nil"):
+                if key in s:
+                    walk(s[key], inside or s["k"] == "generic")
+    walk(case["body"], False)
+    return ids
 
 
 LOCAL_GENERIC_KEY = "crash:crates/codegen/src/compiler/functions.rs:assertion failed: self.tys.try_naive(loc.wrap(), self.world_bodies).is_ok()"
@@ -294,10 +344,14 @@ def shadow_depth(case):
 
 def check(case, stats, scratch, profile):
     nil_uses = set(uses_nil(case))
-    expected, undefined = run_oracle(case)
+    skip = set()
+    if not case.get("force_ct_in_generic") and any(f["key"] == CT_IN_GENERIC_KEY and f.get("status") == "open" for f in core.load_findings("C05")):
+        # listed open finding: a comptime block inside a generic function hits a todo!() in the compiler
+        skip = set(ct_in_generic(case))
+    expected, undefined = run_oracle(case, frozenset(skip))
     undefined = [u for u in undefined if u not in nil_uses]
     # keep at most one undefined use: drop the others from the program text
-    drop = set(nil_uses) | set(undefined[1:])
+    drop = set(nil_uses) | set(undefined[1:]) | skip
     undefined = undefined[:1]
     src, use_line = build(case, drop_uses=frozenset(drop))
     stats.evaluations += 1
@@ -346,7 +400,7 @@ def replay_payload(payload, scratch):
     return None
 
 
-RULE = ("programs over the identifier pool {a,b,c,d}: globals, block locals (:: and :=), switch-arm arguments, lambda parameters, comptime parameters, uses inside comptime blocks, "
+RULE = ("programs over the identifier pool {a,b,c,d,u8,f32} (the last two are built-in type names that bindings may shadow): globals, block locals (:: and :=), switch-arm arguments, lambda parameters, comptime parameters, uses inside comptime blocks, "
         "nested to depth 3 with a use right after most scope ends; unique integer tags. Non-trivial = some name has bindings in >= 2 scopes and there is a use after a scope that "
         "bound the same name ended; distinct by program text.")
 
